@@ -47,7 +47,8 @@ def run(ctx: Ctx, tier: str) -> Result:
     for rid, text in (("C13.HANDLE", "handle depends on a per-call fresh token"),
                       ("C13.MATCH", "remove matches the returned quantity, removes at most one, no-op otherwise"),
                       ("C13.ADD", "registration appends alongside service tracepoints with unchanged arguments"),
-                      ("C13.API", "public API forwards arguments and handle unchanged")):
+                      ("C13.API", "public API forwards arguments and handle unchanged"),
+                      ("C13.ARGS", "the objects a caller passes to the API (options, watches, metric definitions) are never written to")):
         res.rule(rid, text)
     p, t, g = ctx.prog, ctx.types, ctx.guards
     add = p.func(SVC + ".add_custom")
@@ -256,7 +257,13 @@ def run(ctx: Ctx, tier: str) -> Result:
     for i, role in enumerate(add.params[1:], start=1):
         got = ctx.expand.expand(ba[role], reg) if role in ba else []
         want = P(reg, i)
-        if want in got and all(x == want or x in ("[]", "{}") for x in got):
+        def copy_of(x, want=None):
+            # a shallow copy of the caller's object carries the same content
+            import re as _re
+            w_ = _re.escape(want) if want else r"@\w+"
+            l_ = r"(?:%s|<loop:%s>)" % (w_, w_.lstrip("@").replace("\\@", ""))
+            return _re.fullmatch(r"(?:dict|list|tuple)\(%s(?: or (?:\{\}|\[\]|\(\)))?\)|%s\.copy\(\)|\{\*\*%s\}|\[\*%s\]|list\(%s\)" % (l_, l_, l_, l_, l_), x) is not None
+        if (want in got or any(copy_of(x, want) for x in got)) and all(x == want or x in ("[]", "{}") or copy_of(x, want) for x in got):
             res.ok("C13.API", {role: got})
         else:
             res.fail(Finding("C13.API", reg.qname, ac[0], reg.loc(ac[0]), "add_custom receives %s for `%s`, expected %s" % (got, role, want)))
@@ -271,6 +278,8 @@ def run(ctx: Ctx, tier: str) -> Result:
             empty = isinstance(v, (ast.List, ast.Dict, ast.Tuple)) and not getattr(v, "elts", getattr(v, "keys", None))
             if empty and conds in ([("%s is None" % pn, True)], [("%s is not None" % pn, False)]):
                 res.ok("C13.API", {"default for %s only when None" % pn: norm(st)})
+            elif v is not None and copy_of(norm(v).replace(pn, "@" + pn), "@" + pn) and not conds:
+                res.ok("C13.API", {"%s copied before use" % pn: norm(st)})
             else:
                 res.fail(Finding("C13.API", reg.qname, st if st is not None else pn, reg.loc(st) if st is not None else reg.loc(),
                                  "the caller's `%s` is replaced %s: the tracepoint is registered without the %s that were given" % (
@@ -333,6 +342,21 @@ def run(ctx: Ctx, tier: str) -> Result:
         res.ok("C13.API", {"unregister passes the stored handle": True})
     else:
         res.fail(Finding("C13.API", un.qname, rc[0] if rc else "<remove_custom>", un.loc(), "unregister does not pass the handle it was created with to remove_custom"))
+    # the argument objects stay the caller's: no public entry point of the API writes into them (a dict of options
+    # reused for a second registration must mean the same thing there)
+    from .common import param_mutations
+    api = [f_ for cq in (DEEP + ".Deep", DEEP + ".TracepointRegistration") for lst_ in p.cls(cq).methods.values() for f_ in lst_
+           if not f_.name.startswith("_")]
+    for f_ in api:
+        for pn in f_.params[1:]:
+            muts = param_mutations(ctx, f_, pn, depth=4)
+            if muts:
+                mf, mn = muts[0]
+                res.fail(Finding("C13.ARGS", f_.qname, mn, mf.loc(mn), "`%s` writes into the `%s` object the caller passed to %s: the caller's options "
+                                 "are changed behind its back, a later registration made with the same object gets a different tracepoint" % (
+                                     norm(mn)[:80], pn, f_.name)))
+            else:
+                res.ok("C13.ARGS", {"%s(%s) is not modified" % (f_.name, pn): True})
     from .common import borrow
     borrow(ctx, res, tier, "c12", ("C12.APPLY",), "C13.INSTALL", "the trigger handler installs every published tracepoint (registered ones alongside the service's)")
     borrow(ctx, res, tier, "c03", ("C03.LOOP",), "C13.ALONGSIDE", "every installed tracepoint of a location acts there (a registration is not shadowed by another tracepoint of the line)")
